@@ -37,7 +37,7 @@ def scenario(task):
             if o["outcome"] != "ideal":
                 out["bad"].append(("create-failed", f"open(create_cache=True) -> {o['outcome']}: {o.get('error') or o.get('diff')}"))
                 return out
-        if task["producer"] in ("cli-adjacent", "both"):
+        if task["producer"] in ("cli-adjacent", "both", "cli-adjacent-moved"):
             for m in drv.names:
                 o = step({"op": "cli", "img": m, "rpc": rw}, "ceos-alos2-create-cache <image>")
                 if o["outcome"] != "ideal":
@@ -45,6 +45,10 @@ def scenario(task):
                     return out
         if task["producer"] == "both":
             step({"op": "open", "uc": False, "cc": True, "rpc": rw}, "create_cache=True")
+        if task["producer"] == "cli-adjacent-moved":
+            drv.relocate()  # the product (with its adjacent index files) is copied elsewhere; the old place now holds other pixels
+            for r in {cacherun.RPC_MAP[rw], cacherun.RPC_MAP[rr]}:
+                drv.reference(r)
         if task["producer"] == "cli-target":
             for m in drv.names:
                 tgt = os.path.dirname(drv.expected_local_path(m))
@@ -54,20 +58,20 @@ def scenario(task):
                     out["bad"].append(("cli-failed", f"ceos-alos2-create-cache <image> <user cache dir> failed: {rc}"))
                     return out
         cells = drv.cells()
-        want_loc = {"option": ["local"], "cli-adjacent": ["adjacent"], "both": ["local", "adjacent"], "cli-target": ["local"]}[task["producer"]]
+        want_loc = {"option": ["local"], "cli-adjacent": ["adjacent"], "both": ["local", "adjacent"], "cli-target": ["local"], "cli-adjacent-moved": ["adjacent"]}[task["producer"]]
         for loc in want_loc:
             for m in drv.names:
                 if cells[loc][m] != "complete":
-                    out["bad"].append(("cache-not-produced", f"{task['producer']}: no complete {loc} cache for image {m}: {cells}"))
-        if out["bad"]:
-            return out
+                    # not a verdict by itself (the naming of cache files is the implementation's business): what counts is what
+                    # the following opens return
+                    out.setdefault("drift", []).append(f"{task['producer']}: no complete {loc} cache found for image {m}: {cells}")
         # ---- read through the cache with another rpc
         o = step({"op": "open", "uc": True, "cc": False, "rpc": rr, "expect": {"src": {}}}, "use_cache=True")
         if o["outcome"] != "ideal":
             out["bad"].append((f"cached-open-{o['outcome']}", f"open(use_cache=True, rpc={cacherun.RPC_MAP[rr]}) after {task['producer']} with rpc={cacherun.RPC_MAP[rw]}: "
                                f"{o.get('error') or o.get('diff')}"))
         if "src" in o and o["outcome"] == "ideal":
-            if any(v == "parse" for v in o["src"].values()):
+            if any(v == "parse" for v in o["src"].values()) and not out.get("drift"):
                 out["bad"].append(("line-records-reread", f"usable cache present but the image line records were re-read at open time: {o['src']}"))
             if task["producer"] == "cli-adjacent" and not o["index_reads"]:
                 out["bad"].append(("index-not-read", "adjacent cache present but no index file was read"))
@@ -122,8 +126,8 @@ def body(chk):
     i = 0
     for level in ("1.5", "1.1"):
         for fs in ("local", "file", "memory", "vtrace"):
-            for producer in ("option", "cli-adjacent", "both", "cli-target"):
-                if producer == "cli-target" and fs not in ("local", "file"):
+            for producer in ("option", "cli-adjacent", "both", "cli-target", "cli-adjacent-moved"):
+                if producer in ("cli-target", "cli-adjacent-moved") and fs not in ("local", "file"):
                     continue
                 pairs = [(1, 2), (2, 1), (3, 3)] if chk.tier == "thorough" else [((1, 2), (2, 1), (3, 2))[i % 3]]
                 for rw, rr in pairs:
@@ -132,7 +136,8 @@ def body(chk):
     L.tables()
     L.instances([dict(L.SMALL_LEADER), dict(L.SMALL_LEADER, nmap=0), dict(file="volume", nfp=4), dict(file="trailer", nlow=0, lens=[]),
                  dict(file="image", kind="processed", n=4, ndata=6, bps=2), dict(file="image", kind="processed", n=3, ndata=4, bps=2),
-                 dict(file="image", kind="signal", n=4, ndata=24, bps=8), dict(file="image", kind="signal", n=3, ndata=16, bps=8)])
+                 dict(file="image", kind="signal", n=4, ndata=24, bps=8), dict(file="image", kind="signal", n=3, ndata=16, bps=8),
+                 dict(file="volume", nfp=4)])
     results = checklib.pmap(scenario, tasks, chk.scratch)
     npois = 0
     for res in results:
@@ -142,6 +147,8 @@ def body(chk):
         npois += res.get("poisoned", 0)
         for what, msg in res["bad"]:
             chk.violation(f"cache:{what}:{t['fs']}:{t['producer']}", f"[{key}] {msg}", {"task": t, "steps": res["steps"]})
+        for d in res.get("drift", [])[:1]:
+            chk.note("DRIFT: " + d)
     if npois == 0 and not any(res["bad"] for res in results):
         raise checklib.Machinery("vacuity: no index was poisoned")
     chk.traces(len(results))
